@@ -106,6 +106,8 @@ def body_text(b):
             e = '%s + %s' % (e, g)
         if b['pole']['on']:
             e = '%s + 0/(%s-(%d))' % (e, N, b['pole']['at'])
+        for f in b.get('calls', []):
+            e = '%s*(%s)' % (FN_ONE[f], e)
         comps.append(e)
     return comps[0] if len(comps) == 1 else '[' + ', '.join(comps) + ']'
 
@@ -157,8 +159,28 @@ def quot_text(n, direction, salt=0):
     return c[salt % min(len(c), 4)]
 
 
+# functions an author may define (cfg.userfuncs); values stay exact
+USER_FUNCS = {'first': lambda x: x - 1, 'dbl': lambda x: 2 * x}
+# name -> (text of a call whose value is `base`, base): an integer n is written  call + (n - base)
+FN_CALL = {'cos': ('cos(0)', 1), 'exp': ('exp(0)', 1), 'sqrt': ('sqrt(4)', 2), 'sin': ('sin(0)', 0), 'ln': ('ln(1)', 0),
+           're': ('re(3)', 3), 'first': ('first(4)', 3), 'dbl': ('dbl(2)', 4), 'fact': ('fact(3)', 6)}
+# name -> text of a factor equal to 1 that calls the function
+FN_ONE = {'cos': 'cos(0)', 'exp': 'exp(0)', 'sqrt': 'sqrt(1)', 'sin': '(1+sin(0))', 'ln': '(1+ln(1))', 're': 're(1)',
+          'abs': 'abs(-1)', 'first': 'first(2)', 'dbl': 'dbl(1/2)', 'fact': 'fact(1)'}
+
+
+def fn_limit_text(n, f):
+    if f == 'abs':
+        return 'abs(%d)' % (-n) if n >= 0 else '-abs(%d)' % n
+    call, base = FN_CALL[f]
+    d = n - base
+    return call if d == 0 else ('%s+%d' % (call, d) if d > 0 else '%s-%d' % (call, -d))
+
+
 def limit_text(l):
     k, n = l['k'], l['n']
+    if k == 'fn':
+        return fn_limit_text(n, l['f'])
     if k == 'qbelow':
         return quot_text(n, 'below', l.get('salt', n))
     if k == 'qabove':
@@ -218,8 +240,17 @@ def grader_kwargs(aut, cfg, pos, stu=None):
     if t is not None:
         kw['tolerance'] = t
     scripts = {'x': [float(Fraction(n, d)) for n, d in cfg['xs']], 'c': [float(Fraction(*cfg['cval']))]}
-    if uses_fact(aut, *([stu] if stu else [])):
+    if stu is None or uses_fact(aut, stu):          # stu None: the object will serve several submissions
         kw['user_fact'] = True
+    forbidden = sorted(cfg.get('forbidden', []))
+    if cfg.get('listing', 'black') == 'white':
+        kw['whitelist'] = [f for f in KNOWN_FUNCTIONS if f not in forbidden]
+    elif forbidden:
+        kw['blacklist'] = forbidden
+    if cfg.get('required'):
+        kw['required_functions'] = sorted(cfg['required'])
+    if cfg.get('userfuncs'):
+        kw['user_funcs'] = sorted(cfg['userfuncs'])
     return kw, scripts
 
 
@@ -242,27 +273,40 @@ def classify(run):
     return 'other:result', repr(r)[:80]
 
 
-def call_grader(kw, scripts, inputs):
+def build_grader(kw, scripts):
+    """the real SumGrader object for rendered kwargs (may raise ConfigError)"""
     from mitxgraders import SumGrader
     from engine.fixtures import ScriptedSampler
-
     kw = dict(kw)
+    ufs = {name: USER_FUNCS[name] for name in kw.pop('user_funcs', None) or []}
     if kw.pop('user_fact', False):
-        kw.update(user_functions={'fact': py_fact}, suppress_warnings=True)
+        ufs['fact'] = py_fact
+        kw['suppress_warnings'] = True
+    if ufs:
+        kw['user_functions'] = ufs
+    return SumGrader(sample_from={k: ScriptedSampler(script=v) for k, v in scripts.items() if k in kw['variables']}, **kw)
 
+
+def call_grader(kw, scripts, inputs, holder=None):
+    """one call; with a holder (dict) the grader object is created once and kept for the following calls"""
     def run():
-        g = SumGrader(sample_from={k: ScriptedSampler(script=v) for k, v in scripts.items() if k in kw['variables']}, **kw)
+        if holder is None:
+            g = build_grader(kw, scripts)
+        else:
+            if 'g' not in holder:
+                holder['g'] = build_grader(kw, scripts)
+            g = holder['g']
         return g(None, inputs)
     return classify(run)
 
 
-def observe(aut, stu, cfg, pos, single_as_string=False):
-    kw, scripts = grader_kwargs(aut, cfg, pos, stu)
+def observe(aut, stu, cfg, pos, single_as_string=False, holder=None):
+    kw, scripts = grader_kwargs(aut, cfg, pos, None if holder is not None else stu)
     st = sum_text(stu)
     inputs = [st[f] for f in pos]
     if single_as_string and len(inputs) == 1:
         inputs = inputs[0]
-    cls, detail = call_grader(kw, scripts, inputs)
+    cls, detail = call_grader(kw, scripts, inputs, holder)
     return cls, detail, kw, scripts, inputs
 
 
@@ -288,7 +332,9 @@ def make_signature(aut, stu, cfg, pos, allowed, observed, detail, kw, scripts, i
     return {'origin': origin, 'answers': kw['answers'], 'input_positions': kw['input_positions'], 'inputs': inputs,
             'even_odd': kw['even_odd'], 'infty_val': kw['infty_val'], 'infty_val_fact': kw['infty_val_fact'],
             'variables': kw['variables'], 'instructor_vars': kw['instructor_vars'], 'samples': kw['samples'],
-            'tolerance': kw.get('tolerance', 'default'), 'user_fact': kw.get('user_fact', False), 'scripts': scripts, 'allowed': sorted(allowed),
+            'tolerance': kw.get('tolerance', 'default'), 'user_fact': kw.get('user_fact', False), 'scripts': scripts,
+            'blacklist': kw.get('blacklist'), 'whitelist': kw.get('whitelist'), 'required_functions': kw.get('required_functions'),
+            'user_funcs': kw.get('user_funcs'), 'allowed': sorted(allowed),
             'observed': observed, 'detail': detail, 'class': finding_class(aut, allowed, observed, stu)}
 
 
@@ -334,6 +380,44 @@ def replay_states(states, extra):
                 and allowed == ['student_err'] and detail != DRIFT_EXPECT[c['fs']]:
             drift.add('student fault %s raises %s (model of the code says %s)' % (c['fs'], detail, DRIFT_EXPECT[c['fs']]))
     return {'n': n, 'keys': sorted(keys), 'bad': bad, 'sample': sample, 'drift': sorted(drift)}
+
+
+def replay_histories(states, extra):
+    """states of MC_SumGraderHist: two grader objects per history, the calls performed in order; every call must end in a
+    class the specification allows for that call alone"""
+    from engine import repo
+    repo.activate()
+    n = 0
+    keys = set()
+    bad = []
+    sample = None
+    for st in states:
+        c = st['c']
+        if c['kind'] == 'seed':
+            continue
+        io, outs = st['io'], st['out']
+        holders = [{}, {}]
+        trail = []
+        for i, call in enumerate(io['calls']):
+            g = io['graders'][call['g'] - 1]
+            obs, detail, kw, scripts, inputs = observe(g['aut'], call['stu'], g['cfg'], call['pos'], holder=holders[call['g'] - 1])
+            n += 1
+            allowed = outs[i]
+            trail.append({'grader': call['g'], 'inputs': inputs, 'observed': obs})
+            keys.add(('hist', c['gk'], c['sid'], i, call['g'], '/'.join(sorted(allowed))))
+            if obs not in allowed:
+                if len(bad) < 40:
+                    sig = make_signature(g['aut'], call['stu'], g['cfg'], call['pos'], allowed, obs, detail, kw, scripts, inputs,
+                                         'tlc:hist')
+                    sig['history'] = list(trail)
+                    sig['graders'] = [grader_kwargs(x['aut'], x['cfg'], FIELDS)[0] for x in io['graders']]
+                    sig['class'] = 'call-outcome-differs-from-that-of-the-call-alone'
+                    bad.append(sig)
+                else:
+                    bad.append(None)
+        if sample is None:
+            sample = {'history': trail, 'allowed': outs}
+    return {'n': n, 'keys': sorted(keys), 'bad': bad, 'sample': sample, 'drift': []}
 
 
 # ---------------------------------------------------------------- random driver (code -> spec)
@@ -394,7 +478,11 @@ def magnitude_ok(case):
     (a size filter only; the verdict is never computed here)"""
     cfg = case['cfg']
     worst = 0
-    for s in (case['aut'], case['stu']):
+    key = {'lower': 'lower', 'upper': 'upper', 'summand': 'body', 'summation_variable': 'var'}
+    eff = dict(case['aut'])
+    for f in case['pos']:
+        eff[key[f]] = case['stu'][key[f]]               # what is actually graded: the student's boxes, the author's rest
+    for s in (case['aut'], case['stu'], eff):
         b = s['body']
         lims = []
         for l in (s['lower'], s['upper']):
@@ -443,7 +531,7 @@ def rand_case(rng, i):
     comps = [[rterm(rng, bases) for _ in range(rng.randint(1, 3))] for _ in range(dim)]
     var = rng.choice(VALID_NAMES)
     body = {'blank': False, 'comps': comps, 'pole': {'on': False, 'at': 0}, 'sigma': 1, 'shift': 0, 'scale': [1, 1],
-            'add': [[0, 1], [0, 1]], 'v': var}
+            'add': [[0, 1], [0, 1]], 'v': var, 'calls': []}
     cut = rng.randint(8, 14)
     cut_fact = rng.randint(6, 9)
     if family == 'poly':
@@ -480,6 +568,7 @@ def rand_case(rng, i):
         tol = {'kind': 'default', 'val': [1, 1000000000]}
     cfg = {'evenOdd': rng.choice([0, 0, 1, 2]), 'cut': cut, 'cutFact': cut_fact, 'xs': xs, 'cval': [2, 1],
            'vars': ['x'], 'ivars': ['c'], 'tol': tol}
+    cfg.update(rand_restrictions(rng))
     # ---- the submission: an exact rewriting ...
     sb = inline_c(body, cfg['cval'])
     sl, su = dict(l), dict(u)
@@ -574,17 +663,72 @@ def rand_case(rng, i):
     return {'id': i, 'aut': aut, 'stu': stu, 'cfg': cfg, 'pos': P}
 
 
+FN_POOL = ['cos', 'abs', 'sqrt', 'exp', 'sin', 'ln']
+
+
+def rand_restrictions(rng):
+    """which functions a submission may / must use, which author-defined functions exist"""
+    r = {'userfuncs': [], 'forbidden': [], 'required': [], 'listing': 'black'}
+    if rng.random() < .3:
+        r['forbidden'] = sorted(rng.sample(FN_POOL, rng.randint(1, 3)))
+        r['listing'] = rng.choice(['black', 'white'])
+    elif rng.random() < .15:
+        r['listing'] = 'white'
+    if rng.random() < .1:
+        r['required'] = [rng.choice([f for f in FN_POOL if f not in r['forbidden']])]
+    if rng.random() < .25:
+        r['userfuncs'] = sorted(rng.sample(['first', 'dbl'], rng.randint(1, 2)))
+    return r
+
+
+def with_function_calls(rng, s, p=1.0):
+    """the same summation with an integer limit written through a function call and / or a call mentioned in the summand"""
+    s = dict(s)
+    pool = FN_POOL + ['first', 'dbl']
+    if rng.random() < .8 * p:
+        f = rng.choice(['lower', 'upper'])
+        if s[f]['k'] == 'int':
+            s[f] = {'k': 'fn', 'n': s[f]['n'], 'f': rng.choice(pool)}
+    if rng.random() < .3 * p and not s['body']['blank']:
+        s['body'] = dict(s['body'], calls=[rng.choice(pool)])
+    return s
+
+
 def rand_cases(rng, n):
+    """cases come in sessions: several submissions to ONE grader object (same author's sum and configuration), and sibling
+    graders with the same author's text but other function restrictions; '_g' names the object a call goes to"""
     out = []
-    i = 0
     tries = 0
+
+    def push(c, g):
+        if len(out) < n and magnitude_ok(c):
+            c = dict(c, id=len(out), _g=g)
+            out.append(c)
+            return True
+        return False
+    gid = 0
     while len(out) < n and tries < 50 * n:
         tries += 1
-        c = rand_case(rng, i)
-        if not magnitude_ok(c):
+        c = rand_case(rng, 0)
+        if rng.random() < .15:
+            c['stu'] = with_function_calls(rng, c['stu'])
+        if rng.random() < .05 and c['aut']['lower']['k'] == 'int':
+            c['aut'] = with_function_calls(rng, c['aut'])
+        gid += 1
+        if not push(c, gid):
             continue
-        out.append(c)
-        i += 1
+        if rng.random() < .55:
+            own = dict(c['aut'], body=inline_c(c['aut']['body'], c['cfg']['cval']))
+            follow = [dict(c, stu=with_function_calls(rng, c['stu'])), dict(c), dict(c, stu=own),
+                      dict(c, stu=with_function_calls(rng, own)), dict(c, stu=own)]
+            for f in rng.sample(follow, rng.randint(1, 3)) + ([dict(c)] if rng.random() < .5 else []):
+                push(f, gid)
+            if rng.random() < .4:                      # a sibling object: same texts, other restrictions
+                gid += 1
+                cfg2 = dict(c['cfg'])
+                cfg2.update(rand_restrictions(rng))
+                push(dict(c, cfg=cfg2, stu=own), gid)
+                push(dict(c, cfg=cfg2), gid)
     return out
 
 
@@ -592,8 +736,10 @@ def observe_chunk(cases, extra):
     from engine import repo
     repo.activate()
     recs = []
+    holders = {}
     for c in cases:
-        obs, detail, kw, scripts, inputs = observe(c['aut'], c['stu'], c['cfg'], c['pos'], single_as_string=(c['id'] % 2 == 0))
+        obs, detail, kw, scripts, inputs = observe(c['aut'], c['stu'], c['cfg'], c['pos'], single_as_string=(c['id'] % 2 == 0),
+                                                   holder=holders.setdefault(c['_g'], {}))
         c = dict(c)
         c['obs'] = obs
         c['_detail'] = detail
@@ -656,8 +802,24 @@ def run(ctx):
             for b in r['bad']:
                 if b is not None:
                     report(ctx, b)
+    # histories: the outcome of a call is that of the call alone
+    d = os.path.join(ctx.scratch, 'cases_hist')
+    ctx.tlc('graders/MC_SumGraderHist.tla', 'graders/MC_SumGraderHist_%s.cfg' % ctx.tier, dump=d, timeout=3000)
+    res = dump.parallel(d + '.dump', 'engine.adapters.c19', 'replay_histories')
+    os.remove(d + '.dump')
+    counts['hist_calls'] = sum(r['n'] for r in res)
+    for r in res:
+        ctx.traces_validated += r['n']
+        ctx.evaluations += r['n']
+        for k in r['keys']:
+            ctx.nontrivial.add(tuple(k))
+        if r['sample']:
+            ctx.sample(r['sample'])
+        for b in r['bad']:
+            if b is not None:
+                report(ctx, b)
     # code -> spec
-    n = 2000 if ctx.quick else 20000
+    n = 1500 if ctx.quick else 20000
     cases = rand_cases(ctx.rng, n)
     recs = [r for chunk in dump.pmap('engine.adapters.c19', 'observe_chunk', cases) for r in chunk]
     rej = traces.validate(ctx, 'graders/SumGraderTrace.tla', 'graders/SumGraderTrace.cfg', [strip_private(r) for r in recs],
@@ -669,11 +831,13 @@ def run(ctx):
     for i, allowed in rej.items():
         r = byid[i]
         obs, detail, kw, scripts, inputs = r['obs'], r['_detail'], None, None, None
-        kw, scripts = grader_kwargs(r['aut'], r['cfg'], r['pos'], r['stu'])
+        kw, scripts = grader_kwargs(r['aut'], r['cfg'], r['pos'])
         st = sum_text(r['stu'])
         inputs = [st[f] for f in r['pos']]
-        report(ctx, make_signature(r['aut'], r['stu'], r['cfg'], r['pos'], sorted(allowed), obs, detail, kw, scripts, inputs,
-                                   'trace'))
+        sig = make_signature(r['aut'], r['stu'], r['cfg'], r['pos'], sorted(allowed), obs, detail, kw, scripts, inputs, 'trace')
+        # the calls that went to graders before this one in the same worker (the objects are reused across calls)
+        sig['earlier_calls_same_object'] = [sum_text(q['stu']) for q in recs if q['_g'] == r['_g'] and q['id'] < r['id']][-4:]
+        report(ctx, sig)
     obs_hist = {}
     for r in recs:
         obs_hist[r['obs']] = obs_hist.get(r['obs'], 0) + 1
@@ -703,6 +867,14 @@ def replay(ctx, rec):
     sig = rec['signature']
     from engine import repo
     repo.activate()
+    if 'history' in sig:
+        holders = [{}, {}]
+        obs = detail = None
+        for call in sig['history']:
+            obs, detail = call_grader(sig['graders'][call['grader'] - 1], sig['scripts'], call['inputs'], holders[call['grader'] - 1])
+            print('grader %d %r -> %s %s' % (call['grader'], call['inputs'], obs, detail))
+        print('allowed for the last call alone: %s' % sig['allowed'])
+        return obs in sig['allowed']
     kw = dict(answers=sig['answers'], input_positions=sig['input_positions'], even_odd=sig['even_odd'],
               infty_val=sig['infty_val'], infty_val_fact=sig['infty_val_fact'], variables=sig['variables'],
               instructor_vars=sig['instructor_vars'], samples=sig['samples'])
@@ -710,6 +882,9 @@ def replay(ctx, rec):
         kw['tolerance'] = sig['tolerance']
     if sig.get('user_fact'):
         kw['user_fact'] = True
+    for k in ('blacklist', 'whitelist', 'required_functions', 'user_funcs'):
+        if sig.get(k) is not None:
+            kw[k] = sig[k]
     obs, detail = call_grader(kw, sig['scripts'], sig['inputs'])
     print('case:', {k: sig[k] for k in ('answers', 'input_positions', 'inputs', 'even_odd', 'tolerance')})
     print('allowed by the specification: %s; observed now: %s %s' % (sig['allowed'], obs, detail))
